@@ -578,6 +578,56 @@ example : setItem 40 exTreeH ['/', '/', 'a', '/', 'l', '[', '1', ']', '[', '1', 
     ⟨pk_a, pk_l, trivial⟩ (by decide) rfl (Or.inl (by decide))
     (by intro m hm; simp at hm; subst hm; exact pk_x) (by decide)).1
 
+/-- **C03 (hidden index as a step of its own in the middle of a creation path).**  The node at the plain position `P`
+(the value of a key, an element of a list, or — `P = []` — the root) is a dict in which `n` is fresh; `e` is any spelling
+of `0` / `-1`.  `//…P…/[e]/n/ns…` creates exactly the chain `{n: {ns…: v}}` in that dict. -/
+theorem C03_create_hidden_middle_own (cls : Cls) (kvs : List (Str × Val)) (P : Pos) (ocls : Cls)
+    (okvs : List (Str × Val)) (e : IdxSp) (n : Str) (ns : List Str) (v : Val) (fuel : Nat)
+    (hp : PlainPos P) (hP : getAt (.dict cls kvs) P = some (.dict ocls okvs)) (he : e.val = 0 ∨ e.val = -1)
+    (hfresh : lookup n okvs = Option.none) (hnn : PlainKey n) (hns : ∀ m ∈ ns, PlainKey m)
+    (hf : fuel ≥ 2 * P.length + 2) :
+    ∀ t', setAt (.dict cls kvs) (P ++ [.key n]) (chain ns v) = some t' →
+      setItem fuel (.dict cls kvs) (slash ++ renderPos P ++ slash ++ bracket e.text ++ renderPos ((n :: ns).map Seg.key)) v
+        = (t', .ok ()) :=
+  fun t' hset => setItem_hidden_create_middle_own cls kvs P ocls okvs e n ns v t' fuel hp hP he hfresh hnn hns hset hf
+
+/-- **C03 (hidden index on a list element in the middle of a creation path).**  Element `i` of a list is a dict in which
+`n` is fresh: `//…q0…[i][e]/n/ns…` creates exactly the chain `{n: {ns…: v}}` in that dict. -/
+theorem C03_create_hidden_middle_elem (cls : Cls) (kvs : List (Str × Val)) (q0 : Pos) (i : Nat) (ocls : Cls)
+    (okvs : List (Str × Val)) (e : IdxSp) (n : Str) (ns : List Str) (v : Val) (fuel : Nat)
+    (hp : PlainPos (q0 ++ [Seg.idx i])) (hP : getAt (.dict cls kvs) (q0 ++ [Seg.idx i]) = some (.dict ocls okvs))
+    (he : e.val = 0 ∨ e.val = -1)
+    (hfresh : lookup n okvs = Option.none) (hnn : PlainKey n) (hns : ∀ m ∈ ns, PlainKey m)
+    (hf : fuel ≥ 2 * (q0.length + 1) + 2) :
+    ∀ t', setAt (.dict cls kvs) (q0 ++ [Seg.idx i] ++ [.key n]) (chain ns v) = some t' →
+      setItem fuel (.dict cls kvs)
+        (slash ++ renderPos (q0 ++ [Seg.idx i]) ++ bracket e.text ++ renderPos ((n :: ns).map Seg.key)) v = (t', .ok ()) :=
+  fun t' hset =>
+    setItem_hidden_create_middle_elem cls kvs q0 i ocls okvs e n ns v t' fuel hp hP he hfresh hnn hns hset hf
+
+/-- a list `l` whose element 1 is a dict, under `a` -/
+def exTreeH2 : Val :=
+  .dict .n0 [(['a'], .dict .n0 [(['l'], .list .n0 [.int 5, .dict .n0 [(['x'], .int 1)]])])]
+
+/-- `d['//a/o/[0]/n/m'] = 5` on `exTreeH` -/
+example : setItem 40 exTreeH ['/', '/', 'a', '/', 'o', '/', '[', '0', ']', '/', 'n', '/', 'm'] (.int 5)
+    = (.dict .n0 [(['a'], .dict .n0 [(['o'], .dict .n0 [(['p'], .int 1), (['n'], .dict .n0 [(['m'], .int 5)])]),
+        (['l'], .list .n0 [.int 5, .str ['s']])])], .ok ()) :=
+  C03_create_hidden_middle_own .n0 _ [.key ['a'], .key ['o']] .n0 [(['p'], .int 1)] (.lit 0) ['n'] [['m']] (.int 5) 40
+    ⟨pk_a, (⟨by simp, by decide, by simp⟩ : PlainKey ['o']), trivial⟩ rfl (Or.inl rfl) (by decide) pk_n
+    (by intro m hm; simp at hm; subst hm; exact pk_m) (by decide) _ (by decide)
+/-- `d['//[last()]/n'] = 5` on `exTreeH` (`P = []`: the root read as the list of this one item) -/
+example : setItem 40 exTreeH ['/', '/', '[', 'l', 'a', 's', 't', '(', ')', ']', '/', 'n'] (.int 5)
+    = (.dict .n0 [(['a'], .dict .n0 [(['o'], .dict .n0 [(['p'], .int 1)]), (['l'], .list .n0 [.int 5, .str ['s']])]),
+        (['n'], .int 5)], .ok ()) :=
+  C03_create_hidden_middle_own .n0 _ [] .n0 _ .last ['n'] [] (.int 5) 40 trivial rfl (Or.inr rfl) (by decide) pk_n
+    (by simp) (by decide) _ (by decide)
+/-- `d['//a/l[1][-1]/n'] = 5` on `exTreeH2` -/
+example : setItem 40 exTreeH2 ['/', '/', 'a', '/', 'l', '[', '1', ']', '[', '-', '1', ']', '/', 'n'] (.int 5)
+    = (.dict .n0 [(['a'], .dict .n0 [(['l'], .list .n0 [.int 5, .dict .n0 [(['x'], .int 1), (['n'], .int 5)]])])], .ok ()) :=
+  C03_create_hidden_middle_elem .n0 _ [.key ['a'], .key ['l']] 1 .n0 [(['x'], .int 1)] (.neg 1) ['n'] [] (.int 5) 40
+    ⟨pk_a, pk_l, trivial⟩ rfl (Or.inr rfl) (by decide) pk_n (by simp) (by decide) _ (by decide)
+
 /-- `d['//a/n/m'] = 5` through `C03_create_names` -/
 example : setItem 40 exTree2 ['/', '/', 'a', '/', 'n', '/', 'm'] (.int 5)
     = (.dict .n0 [(['a'], .dict .n0 [(['l'], .list .n0 [.int 1]), (['k'], .str ['s']),
